@@ -1427,7 +1427,13 @@ def _handle_note(e, position, part, ongoing, prev_note, doc_order, prev_beam=Non
 
     ties = e.findall("tie")
     if len(ties) > 0:
-        tie_key = ("tie", getattr(note, "midi_pitch", "rest"))
+        # ties are paired by pitch as written (B sharp is not tied to C)
+        tie_key = (
+            "tie",
+            (note.step, note.alter or 0, note.octave)
+            if isinstance(note, score.Note)
+            else "rest",
+        )
         tie_types = set(tie.attrib["type"] for tie in ties)
 
         if "stop" in tie_types:
